@@ -197,6 +197,146 @@ theorem slot_update {ps : Peers} {pid : Nat} {p p' : Peer} (hi : PInv ps) (h : l
       have := pid_inj hi.pid he (lookup_mem h) hep
       subst this; exact hea
 
+/-! ### remove (`swap_remove` of the first match) -/
+
+theorem swapRemove_concat {α : Type} (l₁ : List α) (x : α) (m : List α) (y : α) :
+    swapRemove (l₁ ++ x :: (m ++ [y])) l₁.length = l₁ ++ y :: m := by
+  have h1 : (l₁ ++ x :: (m ++ [y])).getLast? = some y := by
+    have : l₁ ++ x :: (m ++ [y]) = (l₁ ++ x :: m) ++ [y] := by simp
+    rw [this, List.getLast?_append]; simp
+  simp only [swapRemove, h1]
+  have h2 : (l₁ ++ x :: (m ++ [y])).set l₁.length y = (l₁ ++ y :: m) ++ [y] := by
+    simp
+  rw [h2, List.dropLast_concat]
+
+theorem swapRemove_last {α : Type} (l₁ : List α) (x : α) :
+    swapRemove (l₁ ++ [x]) l₁.length = l₁ := by
+  have h1 : (l₁ ++ [x]).getLast? = some x := by simp
+  simp only [swapRemove, h1]
+  have h2 : (l₁ ++ [x]).set l₁.length x = l₁ ++ [x] := by simp
+  rw [h2, List.dropLast_concat]
+
+theorem swapRemove_perm {α : Type} (l₁ : List α) (x : α) (l₂ : List α) :
+    (swapRemove (l₁ ++ x :: l₂) l₁.length).Perm (l₁ ++ l₂) := by
+  rcases List.eq_nil_or_concat l₂ with rfl | ⟨m, y, rfl⟩
+  · simp [swapRemove_last]
+  · rw [List.concat_eq_append, swapRemove_concat]
+    exact List.Perm.append_left _ (List.perm_append_singleton y m).symm
+
+theorem indexOf_split {ps : Peers} {pid i : Nat} (h : indexOf ps pid = some i) :
+    ∃ l₁ e l₂, ps = l₁ ++ e :: l₂ ∧ l₁.length = i ∧ e.1 = pid ∧ ∀ x ∈ l₁, x.1 ≠ pid := by
+  induction ps generalizing i with
+  | nil => simp [indexOf] at h
+  | cons e es ih =>
+    simp only [indexOf] at h
+    split at h
+    · rename_i he
+      simp at h
+      exact ⟨[], e, es, by simp, by simp [h], he, by simp⟩
+    · rename_i he
+      cases hj : indexOf es pid with
+      | none => simp [hj] at h
+      | some j =>
+        simp [hj] at h
+        obtain ⟨l₁, x, l₂, h1, h2, h3, h4⟩ := ih hj
+        refine ⟨e :: l₁, x, l₂, by simp [h1], by simp [h2, h], h3, ?_⟩
+        intro y hy
+        rcases List.mem_cons.1 hy with rfl | hy
+        · exact he
+        · exact h4 y hy
+
+theorem indexOf_none {ps : Peers} {pid : Nat} (h : lookup ps pid = none) : indexOf ps pid = none := by
+  induction ps with
+  | nil => rfl
+  | cons e es ih =>
+    simp only [lookup] at h
+    split at h
+    · simp at h
+    · rename_i he; simp [indexOf, he, ih h]
+
+theorem indexOf_some {ps : Peers} {pid : Nat} {p : Peer} (h : lookup ps pid = some p) :
+    ∃ i, indexOf ps pid = some i := by
+  induction ps with
+  | nil => simp [lookup] at h
+  | cons e es ih =>
+    simp only [lookup] at h
+    split at h
+    · rename_i he; exact ⟨0, by simp [indexOf, he]⟩
+    · rename_i he
+      obtain ⟨i, hi⟩ := ih h
+      exact ⟨i + 1, by simp [indexOf, he, hi]⟩
+
+theorem remove_none {ps : Peers} {pid : Nat} (h : lookup ps pid = none) :
+    remove ps pid = .error (.panic "invalid pid") := by
+  simp [remove, indexOf_none h]
+
+/-- removing a present key: the result has exactly the other entries, and the invariant is kept -/
+theorem remove_some {ps : Peers} {pid : Nat} {p : Peer} (hi : PInv ps) (h : lookup ps pid = some p) :
+    ∃ ps', remove ps pid = .ok ps' ∧ PInv ps' ∧ ∀ x, x ∈ ps' ↔ (x ∈ ps ∧ x.1 ≠ pid) := by
+  obtain ⟨i, hidx⟩ := indexOf_some h
+  obtain ⟨l₁, e, l₂, h1, h2, h3, h4⟩ := indexOf_split hidx
+  subst h1 h2
+  have hperm := swapRemove_perm l₁ e l₂
+  refine ⟨swapRemove (l₁ ++ e :: l₂) l₁.length, by simp [remove, hidx], ?_, ?_⟩
+  · constructor
+    · have : (pids (l₁ ++ l₂)).Nodup := by
+        have := hi.pid
+        simp only [pids, List.map_append, List.map_cons] at this ⊢
+        exact this.sublist (List.Sublist.append_left (List.sublist_cons_self _ _) _)
+      exact ((hperm.map (fun x : Nat × Peer => x.1)).nodup_iff).2 this
+    · have : (addrs (l₁ ++ l₂)).Nodup := by
+        have := hi.addr
+        simp only [addrs, List.map_append, List.map_cons] at this ⊢
+        exact this.sublist (List.Sublist.append_left (List.sublist_cons_self _ _) _)
+      exact ((hperm.map (fun x : Nat × Peer => x.2.addr)).nodup_iff).2 this
+  · intro x
+    rw [hperm.mem_iff]
+    have hl₂ : ∀ y ∈ l₂, y.1 ≠ pid := by
+      intro y hy hyp
+      have hn := hi.pid
+      simp only [pids, List.map_append, List.map_cons] at hn
+      have := (List.nodup_append.1 hn).2.1
+      simp only [List.nodup_cons] at this
+      exact this.1 (List.mem_map.2 ⟨y, hy, by simp [hyp, h3]⟩)
+    simp only [List.mem_append, List.mem_cons]
+    constructor
+    · rintro (hx | hx)
+      · exact ⟨Or.inl hx, h4 x hx⟩
+      · exact ⟨Or.inr (Or.inr hx), hl₂ x hx⟩
+    · rintro ⟨hx | hx | hx, hne⟩
+      · exact Or.inl hx
+      · exact absurd (by simp [hx, h3]) hne
+      · exact Or.inr hx
+
+theorem lookup_remove_self {ps ps' : Peers} {pid : Nat}
+    (hm : ∀ x, x ∈ ps' ↔ (x ∈ ps ∧ x.1 ≠ pid)) : lookup ps' pid = none :=
+  lookup_none_iff.2 fun e he => ((hm e).1 he).2
+
+theorem lookup_remove_other {ps ps' : Peers} {pid q : Nat} (hi : PInv ps) (hi' : PInv ps')
+    (hm : ∀ x, x ∈ ps' ↔ (x ∈ ps ∧ x.1 ≠ pid)) (hq : q ≠ pid) : lookup ps' q = lookup ps q := by
+  apply lookup_congr hi.pid hi'.pid
+  intro e he
+  rw [hm]
+  exact ⟨fun h => h.1, fun h => ⟨h, by simpa [he] using hq⟩⟩
+
+theorem slot_remove {ps ps' : Peers} {pid : Nat} {p : Peer} (hi : PInv ps) (hi' : PInv ps')
+    (h : lookup ps pid = some p) (hm : ∀ x, x ∈ ps' ↔ (x ∈ ps ∧ x.1 ≠ pid)) (a : Nat) :
+    slot ps' a = if p.addr = a then none else slot ps a := by
+  split
+  · rename_i hpa
+    rw [slot_none_iff]
+    intro e he hea
+    have := (hm e).1 he
+    have heq := addr_inj hi.addr this.1 (lookup_mem h) (by simp [hea, hpa])
+    exact this.2 (by simp [heq])
+  · rename_i hpa
+    apply slot_congr hi.addr hi'.addr
+    intro e hea
+    rw [hm]
+    refine ⟨fun h => h.1, fun he => ⟨he, fun hep => hpa ?_⟩⟩
+    have := pid_inj hi.pid he (lookup_mem h) hep
+    subst this; exact hea
+
 /-! ### push -/
 
 theorem lookup_append (ps qs : Peers) (pid : Nat) :
